@@ -110,6 +110,8 @@ pub enum Op {
     Next(usize),
     /// drop open iterator number i
     Drop(usize),
+    /// create handle h now (a clone made after the cache may already have been extended)
+    Make(usize),
 }
 
 impl Op {
@@ -120,6 +122,7 @@ impl Op {
             Op::Open(h) => format!("open {}", h),
             Op::Next(i) => format!("next {}", i),
             Op::Drop(i) => format!("drop {}", i),
+            Op::Make(h) => format!("make {}", h),
         }
     }
     fn parse(t: &str) -> Option<Op> {
@@ -131,6 +134,7 @@ impl Op {
             "open" => Some(Op::Open(n(1)? as usize)),
             "next" => Some(Op::Next(n(1)? as usize)),
             "drop" => Some(Op::Drop(n(1)? as usize)),
+            "make" => Some(Op::Make(n(1)? as usize)),
             _ => None,
         }
     }
@@ -140,6 +144,8 @@ impl Op {
 pub struct History {
     pub prefix: Vec<u64>,
     pub handles: Vec<HandleKind>,
+    /// handles that do not exist from the start but are created by a `make` operation
+    pub deferred: Vec<bool>,
     pub ops: Vec<Op>,
 }
 
@@ -230,18 +236,23 @@ pub fn run_history(h: &History) -> Result<u64, Fail> {
     let prefix = h.prefix.clone();
     let res = guarded(|| -> Result<u64, Fail> {
         let base = ExtrapolatingCurve::new(arrival::Curve::new(prefix.iter().map(|x| d(*x)).collect()));
-        let handles: Vec<Handle> = h
-            .handles
-            .iter()
-            .map(|k| match k {
+        let make = |k: &HandleKind| -> Handle {
+            match k {
                 HandleKind::Plain => Handle::Plain(base.clone()),
                 HandleKind::Jitter(j) => Handle::Boxed(base.clone_with_jitter(d(*j))),
                 HandleKind::Jitter2(a, b) => {
                     Handle::Boxed(base.clone_with_jitter(d(*a)).clone_with_jitter(d(*b)))
                 }
                 HandleKind::Rbf(w) => Handle::Rbf(RBF::new(base.clone(), Scalar::new(s(*w)))),
-            })
-            .collect();
+            }
+        };
+        let handles: Vec<std::cell::OnceCell<Handle>> =
+            h.handles.iter().map(|_| std::cell::OnceCell::new()).collect();
+        for (i, k) in h.handles.iter().enumerate() {
+            if !h.deferred.get(i).copied().unwrap_or(false) {
+                let _ = handles[i].set(make(k));
+            }
+        }
         let eager = |delta: u64| -> usize {
             let mut c = arrival::Curve::new(prefix.iter().map(|x| d(*x)).collect());
             c.extrapolate(d(delta + 1));
@@ -253,9 +264,18 @@ pub fn run_history(h: &History) -> Result<u64, Fail> {
         for (idx, op) in h.ops.iter().enumerate() {
             cur.set(idx);
             match op {
+                Op::Make(hi) => {
+                    if let Some(cell) = handles.get(*hi) {
+                        let _ = cell.set(make(&h.handles[*hi]));
+                    }
+                }
                 Op::Na(hi, delta) => {
+                    let hd = match handles.get(*hi).and_then(|c| c.get()) {
+                        Some(x) => x,
+                        None => continue, // handle not created (yet)
+                    };
                     let j = h.handles[*hi].jitter();
-                    let got = handles[*hi].na(*delta) as u64;
+                    let got = hd.na(*delta) as u64;
                     let q = if *delta == 0 { 0 } else { *delta + j };
                     let e = if q == 0 { 0 } else { eager(q) as u64 };
                     let c = eta[q as usize] as u64;
@@ -265,7 +285,11 @@ pub fn run_history(h: &History) -> Result<u64, Fail> {
                     }
                 }
                 Op::Sn(hi, delta) => {
-                    if let (Handle::Rbf(r), HandleKind::Rbf(w)) = (&handles[*hi], &h.handles[*hi]) {
+                    let hd = match handles.get(*hi).and_then(|c| c.get()) {
+                        Some(x) => x,
+                        None => continue,
+                    };
+                    if let (Handle::Rbf(r), HandleKind::Rbf(w)) = (hd, &h.handles[*hi]) {
                         let got = su(r.service_needed(d(*delta)));
                         let e = if *delta == 0 { 0 } else { eager(*delta) as u64 * *w };
                         let c = eta[*delta as usize] as u64 * *w;
@@ -275,9 +299,10 @@ pub fn run_history(h: &History) -> Result<u64, Fail> {
                         }
                     }
                 }
-                Op::Open(hi) => {
-                    iters.push(Some((handles[*hi].steps(), *hi, 0)));
-                }
+                Op::Open(hi) => match handles.get(*hi).and_then(|c| c.get()) {
+                    Some(hd) => iters.push(Some((hd.steps(), *hi, 0))),
+                    None => iters.push(None),
+                },
                 Op::Next(i) => {
                     if let Some(Some((it, hi, consumed))) = iters.get_mut(*i) {
                         let got = it.next().map(du).unwrap_or(u64::MAX);
@@ -343,9 +368,11 @@ pub fn gen_history(rng: &mut Rng, stats: &mut [u64; 6]) -> History {
     let last = *prefix.last().unwrap();
     let clients = rng.range(2, 5) as usize;
     let mut handles = Vec::new();
+    let mut deferred = Vec::new();
+    let mut made = Vec::new();
     let mut owner = Vec::new(); // handle -> client
     for c in 0..clients {
-        for _ in 0..rng.range(1, 2) {
+        for hn in 0..rng.range(1, 2) {
             let k = match rng.below(6) {
                 0..=2 => HandleKind::Plain,
                 3 => HandleKind::Jitter(rng.below(last + 2)),
@@ -354,6 +381,11 @@ pub fn gen_history(rng: &mut Rng, stats: &mut [u64; 6]) -> History {
             };
             handles.push(k);
             owner.push(c);
+            // a client's second handle is often created only later (a clone made after the
+            // cache was extended by other clients)
+            let later = hn > 0 && rng.chance(2, 3);
+            deferred.push(later);
+            made.push(!later);
         }
     }
     let strat = *rng.pick(&[
@@ -386,7 +418,15 @@ pub fn gen_history(rng: &mut Rng, stats: &mut [u64; 6]) -> History {
         if step > 0 {
             stats[0] += 1; // scheduling decisions
         }
-        let mine: Vec<usize> = (0..handles.len()).filter(|h| owner[*h] == c).collect();
+        let pending: Vec<usize> = (0..handles.len()).filter(|h| owner[*h] == c && !made[*h]).collect();
+        if !pending.is_empty() && rng.chance(1, 4) {
+            let hn = *rng.pick(&pending);
+            made[hn] = true;
+            ops.push(Op::Make(hn));
+            stats[5] += 1;
+            continue;
+        }
+        let mine: Vec<usize> = (0..handles.len()).filter(|h| owner[*h] == c && made[*h]).collect();
         let h = *rng.pick(&mine);
         let want_iter = matches!(strat, SchedStrategy::IteratorHeavy);
         let choice = rng.below(10);
@@ -398,8 +438,12 @@ pub fn gen_history(rng: &mut Rng, stats: &mut [u64; 6]) -> History {
         };
         if (choice < 3 || (want_iter && choice < 6)) && !open[c].is_empty() {
             let it = *rng.pick(&open[c]);
-            ops.push(Op::Next(it));
-            stats[1] += 1;
+            // now and then an iterator is driven far ahead in one go
+            let burst = if rng.chance(1, 12) { rng.range(5, 40) } else { 1 };
+            for _ in 0..burst {
+                ops.push(Op::Next(it));
+                stats[1] += 1;
+            }
         } else if choice == 3 || (want_iter && choice == 6) {
             ops.push(Op::Open(h));
             open[c].push(n_iters);
@@ -414,16 +458,26 @@ pub fn gen_history(rng: &mut Rng, stats: &mut [u64; 6]) -> History {
             ops.push(Op::Sn(h, q));
         } else {
             ops.push(Op::Na(h, q));
+            if rng.chance(1, 10) {
+                // the same query again (possibly through another handle of the same client)
+                let h2 = *rng.pick(&mine);
+                ops.push(Op::Na(h2, q));
+            }
         }
     }
     // in-flight iterators at the end are simply dropped with the run
     stats[4] += open.iter().map(|o| o.len() as u64).sum::<u64>();
-    History { prefix, handles, ops }
+    History { prefix, handles, deferred, ops }
 }
 
 fn history_text(h: &History) -> String {
     let pf: Vec<String> = h.prefix.iter().map(|x| x.to_string()).collect();
-    let hs: Vec<String> = h.handles.iter().map(|k| k.text()).collect();
+    let hs: Vec<String> = h
+        .handles
+        .iter()
+        .enumerate()
+        .map(|(i, k)| format!("{}{}", k.text(), if h.deferred.get(i).copied().unwrap_or(false) { "@" } else { "" }))
+        .collect();
     let mut out = format!("prefix {}\nhandles {}\n", pf.join(" "), hs.join(" "));
     for o in &h.ops {
         out.push_str(&format!("op {}\n", o.text()));
@@ -434,13 +488,15 @@ fn history_text(h: &History) -> String {
 fn parse_history(text: &str) -> Option<History> {
     let mut prefix = Vec::new();
     let mut handles = Vec::new();
+    let mut deferred: Vec<bool> = Vec::new();
     let mut ops = Vec::new();
     for l in text.lines() {
         let l = l.trim();
         if let Some(r) = l.strip_prefix("prefix ") {
             prefix = r.split_whitespace().filter_map(|x| x.parse().ok()).collect();
         } else if let Some(r) = l.strip_prefix("handles ") {
-            handles = r.split_whitespace().filter_map(HandleKind::parse).collect();
+            handles = r.split_whitespace().filter_map(|t| HandleKind::parse(t.trim_end_matches('@'))).collect();
+            deferred = r.split_whitespace().map(|t| t.ends_with('@')).collect();
         } else if let Some(r) = l.strip_prefix("op ") {
             ops.push(Op::parse(r)?);
         }
@@ -448,7 +504,7 @@ fn parse_history(text: &str) -> Option<History> {
     if prefix.is_empty() || handles.is_empty() {
         return None;
     }
-    Some(History { prefix, handles, ops })
+    Some(History { prefix, handles, deferred, ops })
 }
 
 fn fail_text(f: &Fail, h: &History) -> String {
@@ -777,6 +833,7 @@ fn client_item(sh: &ExtShared, k: u64, rng: &mut Rng, acc: &mut Acc) {
     acc.counters.add("fault.iterator_opened", stats[2]);
     acc.counters.add("fault.iterator_dropped_midway", stats[3]);
     acc.counters.add("fault.iterator_in_flight_at_end", stats[4]);
+    acc.counters.add("fault.handle_cloned_after_cache_extended", stats[5]);
     let text = history_text(&h);
     let fpv = hash_str(&text);
     sh.fps.insert(fpv);
